@@ -71,9 +71,16 @@ def isCall1 : Term → Bool
   | .app "call" (.cons _ .nil) => true
   | _ => false
 
+/-- the control constructs as goals: `call(G)`, `(C -> T ; E)`, `(C -> T)` -/
+def ctlGoal : Term → Bool
+  | .app "call" (.cons _ .nil) => true
+  | .app ";" (.cons (.app "->" (.cons _ (.cons _ .nil))) (.cons _ .nil)) => true
+  | .app "->" (.cons _ (.cons _ .nil)) => true
+  | _ => false
+
 /-- a goal `arrive` sees (not the cut): a Horn goal, or — in the fragments with control constructs
-    (`s = true`) — `call/1` -/
-def stepGoal (s : Bool) (t : Term) : Bool := hornGoal t || (s && isCall1 t)
+    (`s = true`) — a control construct -/
+def stepGoal (s : Bool) (t : Term) : Bool := hornGoal t || (s && ctlGoal t)
 
 /-- a goal of the fragment: the cut or a `stepGoal` -/
 def goalS (s : Bool) (t : Term) : Bool := t == .atom "!" || stepGoal s t
@@ -123,7 +130,11 @@ theorem goalS_false (t : Term) : goalS false t = cutGoal t := by simp [goalS, st
 theorem bodyS_false (b : Term) : bodyS false b = bodyOK b := by
   simp only [bodyS, bodyOK]; congr 1; funext t; exact goalS_false t
 theorem clauseS_false (c : Term) : clauseS false c = clauseOK c := by simp [clauseS, clauseOK, bodyS_false]
-/-- **the fragment (stage 3a)**: stage 2 + `call/1` (also as a variable in goal position) -/
+/-- **the fragment (stage 3)**: stage 2 + the control constructs `ctlGoal` as goals of clause bodies,
+    of the query and of the goals that are called: `call/1` (also as a variable in goal position),
+    if-then-else, if-then -/
+abbrev CtlFrag (prog : List Term) (query : Term) : Prop := FragS true prog query
+/-- (the name under which stage 3a was delivered) -/
 abbrev CallFrag (prog : List Term) (query : Term) : Prop := FragS true prog query
 
 theorem goalS_mono {t : Term} (h : goalS false t = true) (s : Bool) : goalS s t = true := by
@@ -346,13 +357,44 @@ theorem isCall1_shape {g : Term} (h : isCall1 g = true) : ∃ x, g = .app "call"
   · rename_i x; exact ⟨x, rfl⟩
   · cases h
 
-/-- a `stepGoal`: a Horn goal or (with control constructs) `call(x)` -/
+/-- the control constructs, by shape -/
+inductive Ctl (g : Term) : Prop
+  | call (x : Term) : g = .app "call" (.cons x .nil) → Ctl g
+  | ite (c t e : Term) : g = .app ";" (.cons (.app "->" (.cons c (.cons t .nil))) (.cons e .nil)) → Ctl g
+  | ifthen (c t : Term) : g = .app "->" (.cons c (.cons t .nil)) → Ctl g
+
+theorem ctlGoal_shape {g : Term} (h : ctlGoal g = true) : Ctl g := by
+  unfold ctlGoal at h
+  split at h
+  · exact .call _ rfl
+  · exact .ite _ _ _ rfl
+  · exact .ifthen _ _ rfl
+  · cases h
+
+theorem ctlGoal_app {g : Term} (h : ctlGoal g = true) : ∃ f a as, g = .app f (.cons a as) := by
+  cases ctlGoal_shape h with
+  | call x hx => exact ⟨_, _, _, hx⟩
+  | ite c t e hx => exact ⟨_, _, _, hx⟩
+  | ifthen c t hx => exact ⟨_, _, _, hx⟩
+
+/-- a `stepGoal`: a Horn goal or (with control constructs) a control construct -/
 theorem stepGoal_cases {s : Bool} {g : Term} (h : stepGoal s g = true) :
-    hornGoal g = true ∨ (s = true ∧ ∃ x, g = .app "call" (.cons x .nil)) := by
+    hornGoal g = true ∨ (s = true ∧ Ctl g) := by
   simp only [stepGoal, Bool.or_eq_true, Bool.and_eq_true] at h
   rcases h with h | ⟨h1, h2⟩
   · exact Or.inl h
-  · exact Or.inr ⟨h1, isCall1_shape h2⟩
+  · exact Or.inr ⟨h1, ctlGoal_shape h2⟩
+
+theorem not_horn_reserved {f : String} {as : Args} (hf : f ∈ reservedNames) (hne : f ≠ "=") :
+    hornGoal (.app f as) = false := by
+  cases h : hornGoal (.app f as) with
+  | false => rfl
+  | true =>
+    exfalso
+    simp only [hornGoal, Bool.and_eq_true, Bool.or_eq_true, beq_iff_eq, decide_eq_true_eq] at h
+    rcases h.2 with h2 | h2
+    · exact hne h2.1
+    · exact reserved_not_user h2 hf
 
 /-- a body of the fragment is not a disjunction: the compiler sees ONE alternative -/
 theorem altBodies_toRep {s : Bool} (b : Term) (h : bodyS s b = true) : altBodies (toRep b) = [toRep b] := by
@@ -369,7 +411,6 @@ theorem altBodies_toRep {s : Bool} (b : Term) (h : bodyS s b = true) : altBodies
       · rename_i a b' heq
         simp only [Rep.compound.injEq] at heq
         obtain ⟨rfl, hargs⟩ := heq
-        exfalso
         cases as with
         | nil => simp [toReps] at hargs
         | cons x xs =>
@@ -381,17 +422,25 @@ theorem altBodies_toRep {s : Bool} (b : Term) (h : bodyS s b = true) : altBodies
               have : SLD.conjuncts (.app ";" (.cons x (.cons y .nil))) = [.app ";" (.cons x (.cons y .nil))] := by
                 simp [SLD.conjuncts, SLD.wrapVar]
               simp only [bodyS, this, List.all_cons, List.all_nil, Bool.and_true] at h
-              rcases goalS_cases h with h | h
-              · cases h
-              rcases stepGoal_cases h with h | ⟨_, x, hx⟩
-              rotate_left
-              · simp at hx
-              rcases hornGoal_shape h with ⟨f, hf', _⟩ | ⟨a, b, hab⟩ | ⟨f, as, hfa, hu, _⟩
-              · cases hf'
-              · simp at hab
-              · simp only [Term.app.injEq] at hfa
-                obtain ⟨rfl, rfl⟩ := hfa
-                exact reserved_not_user hu (by decide)
+              have hx : ∃ c t, x = .app "->" (.cons c (.cons t .nil)) := by
+                rcases goalS_cases h with h | h
+                · cases h
+                rcases stepGoal_cases h with h | ⟨_, hc⟩
+                · rw [not_horn_reserved (by decide) (by decide)] at h; cases h
+                · cases hc with
+                  | call x' hx' => simp at hx'
+                  | ite c t e hx' =>
+                    simp only [Term.app.injEq, Args.cons.injEq, true_and, and_true] at hx'
+                    exact ⟨c, t, hx'.1⟩
+                  | ifthen c t hx' => simp at hx'
+              obtain ⟨c, t, rfl⟩ := hx
+              simp only [toReps, RepList.cons.injEq] at hargs
+              obtain ⟨ha, hb, _⟩ := hargs
+              subst ha; subst hb
+              rw [toRep_app_ne_dot _ _ (by decide)]
+              simp only [toReps]
+              rw [toRep_app_ne_dot "->" _ (by decide)]
+              simp [toReps]
             | cons _ _ => simp [toReps] at hargs
       · rfl
   | _ => simp [toRep, altBodies]
@@ -470,9 +519,9 @@ theorem bodyOK_goals {s : Bool} (b : Term) (h : bodyS s b = true) :
       rw [toRep]; unfold mkApp; split
       · split <;> simp [CallableGoal]
       · simp [CallableGoal]
-    | int _ => simp [SLD.wrapVar, hornGoal, stepGoal, isCall1] at hc
-    | flt _ => simp [SLD.wrapVar, hornGoal, stepGoal, isCall1] at hc
-    | str _ => simp [SLD.wrapVar, hornGoal, stepGoal, isCall1] at hc
+    | int _ => simp [SLD.wrapVar, hornGoal, stepGoal, ctlGoal] at hc
+    | flt _ => simp [SLD.wrapVar, hornGoal, stepGoal, ctlGoal] at hc
+    | str _ => simp [SLD.wrapVar, hornGoal, stepGoal, ctlGoal] at hc
 
 /-- the shape of the compiled form of a clause of the fragment -/
 structure HeadLayout (h : Term) (cl : Clause) (hargs : RepList) : Prop where
